@@ -341,6 +341,72 @@ fn matrix_arith_dense_model() -> Option<String> {
     res
 }
 
+/// C16: factorise + solve on small-integer matrices (exhaustive 2x2 with entries -2..2, a deterministic sample of 3x3 and
+/// 4x4, real and complex): residual, multiplier magnitudes, SingularMatrix only for singular input
+fn lu_small() -> Option<String> {
+    use ivp::matrix::{lin_solve, lin_solve_complex, lu_decomp, lu_decomp_complex, Matrix};
+    fn det(n: usize, a: &[f64]) -> f64 {
+        // exact for small integers: cofactor expansion
+        if n == 1 { return a[0]; }
+        let mut d = 0.0;
+        for c in 0..n {
+            let mut sub = Vec::new();
+            for i in 1..n { for j in 0..n { if j != c { sub.push(a[i * n + j]); } } }
+            d += (if c % 2 == 0 { 1.0 } else { -1.0 }) * a[c] * det(n - 1, &sub);
+        }
+        d
+    }
+    let mut seed: u64 = 0x2545F4914F6CDD1D;
+    let mut next = move || { seed ^= seed << 13; seed ^= seed >> 7; seed ^= seed << 17; ((seed >> 11) % 5) as f64 - 2.0 };
+    let mut cases: Vec<(usize, Vec<f64>)> = Vec::new();
+    for code in 0..625u32 { let mut c = code; let mut v = vec![0.0; 4]; for e in v.iter_mut() { *e = (c % 5) as f64 - 2.0; c /= 5; } cases.push((2, v)); }
+    for _ in 0..4000 { let v: Vec<f64> = (0..9).map(|_| next()).collect(); cases.push((3, v)); }
+    for _ in 0..2000 { let v: Vec<f64> = (0..16).map(|_| next()).collect(); cases.push((4, v)); }
+    for (n, av) in cases.iter() {
+        let n = *n;
+        let b: Vec<f64> = (0..n).map(|i| (i as f64) - 1.0 + if i == 0 { 3.0 } else { 0.0 }).collect();
+        let mut a = Matrix::from_vec(n, n, av.clone());
+        let mut ip = vec![0usize; n];
+        let d = det(n, av);
+        match lu_decomp(&mut a, &mut ip) {
+            Err(_) => { if d != 0.0 { return Some(format!("lu_decomp rejects the nonsingular {}x{} matrix {:?} (det {})", n, n, av, d)); } }
+            Ok(()) => {
+                if d == 0.0 { continue; }   // a singular matrix whose last pivot is a rounding residue is accepted: the property speaks of exactly zero pivot columns
+                for k in 0..n { for i in k + 1..n { if a[(i, k)].abs() > 1.0 { return Some(format!("multiplier {} at ({},{}) for {:?}", a[(i, k)], i, k, av)); } } }
+                let mut x = b.clone();
+                lin_solve(&a, &mut x, &ip);
+                for i in 0..n {
+                    let r: f64 = (0..n).map(|j| av[i * n + j] * x[j]).sum::<f64>() - b[i];
+                    if !(r.abs() <= 1e-9) { return Some(format!("A={:?} ({}x{}), b={:?}: lu_decomp+lin_solve give x={:?}, residual row {} = {:e}", av, n, n, b, x, i, r)); }
+                }
+            }
+        }
+    }
+    // complex: (AR + i AI) z = (br + i bi)
+    for t in 0..3000 {
+        let n = 2 + (t % 3);
+        let arv: Vec<f64> = (0..n * n).map(|_| next()).collect();
+        let aiv: Vec<f64> = (0..n * n).map(|_| next()).collect();
+        let br: Vec<f64> = (0..n).map(|_| next()).collect();
+        let bi: Vec<f64> = (0..n).map(|_| next()).collect();
+        let mut ar = Matrix::from_vec(n, n, arv.clone());
+        let mut ai = Matrix::from_vec(n, n, aiv.clone());
+        let mut ip = vec![0usize; n];
+        if lu_decomp_complex(&mut ar, &mut ai, &mut ip).is_err() { continue; }
+        let (mut xr, mut xi) = (br.clone(), bi.clone());
+        lin_solve_complex(&ar, &ai, &mut xr, &mut xi, &ip);
+        let scale: f64 = xr.iter().chain(xi.iter()).fold(1.0, |m: f64, v| m.max(v.abs()));
+        for i in 0..n {
+            let rr: f64 = (0..n).map(|j| arv[i * n + j] * xr[j] - aiv[i * n + j] * xi[j]).sum::<f64>() - br[i];
+            let ri: f64 = (0..n).map(|j| arv[i * n + j] * xi[j] + aiv[i * n + j] * xr[j]).sum::<f64>() - bi[i];
+            if !(rr.abs() <= 1e-9 * scale && ri.abs() <= 1e-9 * scale) {
+                return Some(format!("complex {}x{}: AR={:?} AI={:?} b=({:?},{:?}): x=({:?},{:?}), residual row {} = ({:e},{:e})", n, n, arv, aiv, br, bi, xr, xi, i, rr, ri));
+            }
+        }
+    }
+    None
+}
+
 fn main() {
     let which = std::env::args().nth(1).unwrap_or_default();
     let r = match which.as_str() {
@@ -350,6 +416,7 @@ fn main() {
         "teval_terminal" => teval_terminal(),
         "default_mass" => default_mass(),
         "matrix_dense_model" => matrix_dense_model(),
+        "lu_small" => lu_small(),
         "rk4_overshoot" => rk4_overshoot(),
         "counters" => counters(),
         "matrix_arith_dense_model" => matrix_arith_dense_model(),
